@@ -1,0 +1,6 @@
+//go:build verif
+
+package webrtc
+
+// VerifIsOfferer exports the role rule for verification harnesses.
+func VerifIsOfferer(a, b string) bool { return isOfferer(a, b) }
